@@ -25,6 +25,7 @@ EXPLANATION = (
     "constructor arm before the specification part is complete (violated today: known finding). R5: "
     "interface procedures take the interface's permission and constructors the type's. The full "
     "product space on real programs is not decided."
+    " Added after waves 6/7 - entity names are stored spelled like the keys of the access-statement table; a constructor stores the accessibility it is given (listed finding: blanks inside generic specs)."
 )
 ASSUMPTIONS = ["the dispatch loop has the shape recognised by sa/cascade.py (else ANALYSIS-ERROR)"]
 
